@@ -31,6 +31,8 @@ import dask.callbacks as CB
 from dask._task_spec import Task, TaskRef, DataNode, Alias, List, GraphNode
 
 ALL_KINDS = ("task", "data", "alias", "legacy", "listarg", "legacylist")
+# "none": a Task whose body returns None (side-effect style task); kept out of ALL_KINDS so that the big obligations do not grow
+NONE_KINDS = ("task", "none", "data")
 
 
 def key_of(j):
@@ -52,13 +54,15 @@ class F:
     """task body of node j: logs the call, optionally fails, returns a tuple
     exposing the argument order and values"""
 
-    def __init__(self, j, log, fail_cls=None):
-        self.j, self.log, self.fail_cls = j, log, fail_cls
+    def __init__(self, j, log, fail_cls=None, ret_none=False):
+        self.j, self.log, self.fail_cls, self.ret_none = j, log, fail_cls, ret_none
 
     def __call__(self, *args):
         self.log.append(("exec", self.j, args))
         if self.fail_cls is not None:
             raise self.fail_cls(f"boom{self.j}", self.j)
+        if self.ret_none:
+            return None
         return (self.j,) + tuple(args)
 
     def __repr__(self):
@@ -139,10 +143,10 @@ def build(spec, log, fails):
     dsk = {}
     for j, s in enumerate(spec):
         k = key_of(j)
-        f = F(j, log, fails.get(j))
-        deps = [key_of(i) for i in s["deps"]]
         kind = s["kind"]
-        if kind == "task":
+        f = F(j, log, fails.get(j), ret_none=(kind == "none"))
+        deps = [key_of(i) for i in s["deps"]]
+        if kind in ("task", "none"):
             dsk[k] = Task(k, f, *[TaskRef(d) for d in deps])
         elif kind == "data":
             dsk[k] = DataNode(k, s["leaf"])
@@ -167,6 +171,8 @@ def ref_value(spec, j):
         return s["leaf"]
     if kind == "alias":
         return ref_value(spec, s["deps"][0])
+    if kind == "none":
+        return None
     vals = [ref_value(spec, i) for i in s["deps"]]
     if kind in ("task", "legacy"):
         return (j,) + tuple(vals)
@@ -184,19 +190,39 @@ def needed_set(spec, want):
     return seen
 
 
-def gen_request(e, N):
+NSHAPES = 5
+
+
+def gen_request(e, N, allow_empty=True, shapes=(0, 1, 2, 3, 4)):
+    """requested node subset (possibly empty) and the nesting of the request:
+    0 scalar key (single) / flat list   1 flat list   2 [[k0], rest]  (list first)
+    3 [k0, rest]  (key first, then a list: heterogeneous)   4 [rest, k_last]  (list first, then a key)"""
     want = [j for j in range(N) if e.flag(f"w{j}")]
-    e.assume(len(want) > 0)
-    shape = e.choice("shape", 3)   # 0: scalar key (if single) / flat list, 1: flat list, 2: nested lists
+    if not allow_empty:
+        e.assume(len(want) > 0)
+    shape = e.pick("shape", shapes)
+    if not want:
+        e.assume(shape in (1, 2, 3))      # [] , [[], []] , [[]]
     return want, shape
 
 
 def request_keys(want, shape):
+    """(keys structure handed to the scheduler, function packing the list of node values the same way)"""
     ks = [key_of(j) for j in want]
+    if not ks:
+        if shape == 2:
+            return [[], []], (lambda v: ((), ()))
+        if shape == 3:
+            return [[]], (lambda v: ((),))
+        return [], (lambda v: ())
     if shape == 0 and len(ks) == 1:
         return ks[0], (lambda v: v[0])
     if shape == 2:
         return [[ks[0]], ks[1:]], (lambda v: ((v[0],), tuple(v[1:])))
+    if shape == 3:
+        return [ks[0], ks[1:]], (lambda v: (v[0], tuple(v[1:])))
+    if shape == 4:
+        return [ks[:-1], ks[-1]], (lambda v: (tuple(v[:-1]), v[-1]))
     return ks, (lambda v: tuple(v))
 
 
